@@ -23,38 +23,118 @@ MESH_NEW = "retrofire_core::geom::mesh::Mesh::<A, B>::new"
 
 
 def mesh_new_contract(rep, prog, items):
-    """(a) attribution check on the callee."""
+    """(a) the callee's contract, decided by abstract interpretation: Mesh::new on two faces with symbolic indices j and a vertex vector
+    of symbolic length n panics exactly in the scenarios where some j >= n (all 64 in/out combinations), however the check is written
+    (assert!(all(..)), position/any + panic!, a loop). Undischarged panic edges other than that one are reported."""
+    import itertools
+    from . import symalg as S, absint as A
     cfg = prog.config
     mn = prog.body(MESH_NEW)
-    fam = prog.family(MESH_NEW)
+    TRI = "retrofire_core::geom::Tri"
+    names = ["j%d%d" % (f, k_) for f in range(2) for k_ in range(3)]
+    wrong = []
+    n_scn = 0
+    undecided = None
+    pending_infra = []
+    for bits in itertools.product((True, False), repeat=6):
+        scn = dict(zip(names, bits))
+
+        def orc(op, a, b_, scn=scn):
+            for (x, y, flip) in ((a, b_, False), (b_, a, True)):
+                if isinstance(x, tuple) and x[0] == "sym" and x[1] in scn and y == ("sym", "n"):
+                    inr = scn[x[1]]
+                    res = {"Lt": inr, "Ge": not inr, "Le": inr, "Gt": not inr, "Eq": False, "Ne": True}
+                    if flip:
+                        res = {"Gt": inr, "Le": not inr, "Ge": inr, "Lt": not inr, "Eq": False, "Ne": True}
+                    return res.get(op)
+            return None
+
+        def m_collect(it_, args_, c_, d_):
+            v_ = A.deref_all(it_, args_[0])
+            return v_ if isinstance(v_, tuple) and v_[0] in ("symvec", "array") else S.m_collect(it_, args_, c_, d_)
+        it = S.interp(prog, oracle=orc, models={"IntoIterator::into_iter": lambda it_, args_, c_, d_: args_[0],
+                                                "core::iter::traits::iterator::Iterator::collect": m_collect})
+        faces = ("array", [("adt", TRI, "Tri", [("array", [S.sym("j%d%d" % (f, k_)) for k_ in range(3)])]) for f in range(2)])
+        try:
+            it.call_body(mn, [faces, ("symvec", "n")])
+            got = False
+        except A.Panic:
+            got = True
+        except A.Undecided as e:
+            undecided = str(e)
+            break
+        n_scn += 1
+        if got != (not all(bits)):
+            wrong.append((scn, got))
+    if undecided:
+        pending_infra.append("C14.K-mesh: Mesh::new could not be interpreted abstractly (%s)" % undecided)
+    ok = not wrong and not undecided
+    rep.inst("C14.K-mesh", "Mesh::new on symbolic face indices and vertex count: panics exactly when some index >= verts.len() in all %d scenarios: %s" % (n_scn, ok), config=cfg)
+    if wrong:
+        scn, got = wrong[0]
+        rep.violate("C14.K-mesh", "K-mesh|attribution|contract", mn.where(),
+                    "Mesh::new does not panic exactly when a face index is out of range: with indices in range = %s it %s"
+                    % ({k_: v_ for k_, v_ in scn.items()}, "panics" if got else "returns"), config=cfg)
+    # any other panic edge of Mesh::new must be discharged; an index into `faces` by the result of position()/enumerate() on the same
+    # vector is in range by construction
     _seen, edges, _g, _s = P.inventory(prog, [mn])
     P.discharge_generic(edges, items)
-    open_edges = [e for e in edges if not e.discharged]
     sl = items.slicer(mn)
-    ok = len(open_edges) == 1 and open_edges[0].kind == "diverge" and open_edges[0].body is mn
-    guard_ok = False
-    if ok:
-        e = open_edges[0]
-        be = G.bool_edges(mn, sl, lambda d: d[0] == "call" and "::all" in d[1])
-        fa = [x for _bi, _tr, f in be for x in f]
-        guard_ok = bool(fa) and G.guarded_by(mn, e.bb, fa)
-        # the predicate is j < verts.len()
-        pred_ok = False
-        for c in fam[1:]:
-            csl = items.slicer(c)
-            r = csl.local(0)
-            if r[0] == "bin" and r[1] == "Lt" and T.calls_in(r[3], "Vec::<T, A>::len"):
-                pred_ok = True
-        guard_ok = guard_ok and pred_ok
-    rep.inst("C14.K-mesh", "Mesh::new panic edges: %d undischarged (%s); the one edge is the failing side of all(j < verts.len()): %s"
-             % (len(open_edges), [e.what for e in open_edges], guard_ok), config=cfg)
-    if not (ok and guard_ok):
-        for e in open_edges:
-            if not (ok and guard_ok):
-                rep.violate("C14.K-mesh", "K-mesh|attribution|%s" % e.what, e.where,
-                            "Mesh::new has a panic edge (%s) that its contract 'panics iff a face index >= verts.len()' does not account for" % e.what,
-                            config=cfg)
-    return ok and guard_ok
+    div = [e for e in edges if not e.discharged and e.kind == "diverge"]
+    rep.inst("C14.K-mesh", "Mesh::new has %d undischarged diverging edge(s) (the contract's own panic is one)" % len(div), config=cfg)
+    for e in div[1:] if len(div) > 1 else []:
+        rep.violate("C14.K-mesh", "K-mesh|attribution|%s" % e.what, e.where,
+                    "Mesh::new has %d panic sites where its contract 'panics iff a face index >= verts.len()' accounts for one (%s at %s)" % (len(div), e.what, e.where), config=cfg)
+    for e in edges:
+        if e.discharged or e.kind == "diverge":
+            continue
+        t_ = e.node
+        if e.kind == "std-cond" and "ops::index::Index" in e.what and t_.get("args"):
+            ix = T.strip(sl.operand(t_["args"][1]), sites=True, refs=True)
+            if T.contains(ix, lambda q: q[0] == "call" and q[1].split(" => ")[0].rsplit("::", 1)[-1] in ("position", "rposition", "enumerate")):
+                continue
+        rep.violate("C14.K-mesh", "K-mesh|attribution|%s" % e.what, e.where,
+                    "Mesh::new has a panic edge (%s) that its contract 'panics iff a face index >= verts.len()' does not account for" % e.what, config=cfg)
+    if pending_infra and not any(v.key.startswith("K-mesh|attribution") for v in rep.violations):
+        raise common.Infra(pending_infra[0])
+
+
+def _subst_params(t, args):
+    if not isinstance(t, tuple):
+        return t
+    if t[0] == "param" and isinstance(t[1], int) and 1 <= t[1] <= len(args):
+        return args[t[1] - 1]
+    out = tuple(_subst_params(x, args) if isinstance(x, tuple) else x for x in t)
+    # (Some{x} as Some).0  ->  x   (an Option argument built at the call site and matched in the checker)
+    if out[0] == "field" and out[1][0] == "downcast" and out[1][1][0] == "agg" and out[1][1][1].endswith("::" + out[1][2]) and out[1][1][2]:
+        return out[1][1][2][0]
+    return out
+
+
+def _checker_summary(prog, callee):
+    """For a function returning Result: comparisons between values derived from its parameters such that EVERY return of an Ok value
+    is reachable only through one side of the comparison: [(op, lhs, rhs, passing_side)]."""
+    sl = T.Slicer(callee)
+    rets_ok = []
+    for bi, si, st in callee.stmts():
+        if st["k"] == "Assign" and st["lhs"]["l"] == 0 and not st["lhs"]["p"] and st["rv"]["k"] == "Aggregate" and st["rv"].get("variant") == "Ok":
+            rets_ok.append(bi)
+    if not rets_ok:
+        return []
+    out = []
+    for sb, tr, fa in G.bool_edges(callee, sl, lambda d: d[0] == "bin" and d[1] in ("Ge", "Gt", "Lt", "Le")):
+        d, neg = G.strip_not(sl.operand(callee.term(sb)["discr"]))
+        a, b = T.strip(d[2], sites=False, refs=True), T.strip(d[3], sites=False, refs=True)
+        if neg:
+            tr, fa = fa, tr
+        # every Ok return avoids the true side / the false side of this comparison?
+        avoid_true = all(bi not in callee.reachable(dst, unwind=False) for (_s, dst, _l) in tr for bi in rets_ok)
+        avoid_false = all(bi not in callee.reachable(dst, unwind=False) for (_s, dst, _l) in fa for bi in rets_ok)
+        if avoid_true and not avoid_false:
+            out.append((d[1], a, b, False))
+        elif avoid_false and not avoid_true:
+            out.append((d[1], a, b, True))
+    return out
 
 
 def check_config(rep, prog):
@@ -119,6 +199,24 @@ def check_config(rep, prog):
                 est += tr          # len > max
             elif d[1] == "Le" and is_len_of(T.strip(d[2], sites=False), verts_v) and is_maxpos(d[3]):
                 est += fa
+        # a local checker `check(.., Some(max_pos), verts.len())?`: the Continue edge of its `?` establishes what every Ok-return of the
+        # checker is guarded by (its summary), with the parameters replaced by the arguments
+        for cb_i, ct in po.calls():
+            cname = (ct["callee"].get("res") or {}).get("path") or ct["callee"]["path"]
+            callee = prog.lookup(cname)
+            if callee is None or callee.kind not in ("Fn", "AssocFn") or callee.file != po.file or "mesh::" in cname:
+                continue
+            for (op, li, ri, passing) in _checker_summary(prog, callee):
+                args = [T.strip(sl.operand(a_), sites=False, refs=True) for a_ in ct["args"]]
+                la, ra = _subst_params(li, args), _subst_params(ri, args)
+                ok_cmp = (op in ("Ge", "Gt") and passing is False and is_maxpos(la) and is_len_of(ra, verts_v)) or \
+                         (op in ("Lt", "Le") and passing is True and is_maxpos(la) and is_len_of(ra, verts_v))
+                if not ok_cmp:
+                    continue
+                # the `?` consuming this call's result
+                CF = "core::ops::control_flow::ControlFlow"
+                cont = G.variant_edges(prog, po, sl, lambda p_, site=(po.path, cb_i): T.contains(p_, lambda q: q[0] == "call" and len(q) > 3 and q[3] == site), CF, "Continue")
+                est += cont
         for sb, tr, fa in G.bool_edges(po, sl, lambda d: d[0] == "call" and d[1].split(" => ")[0].endswith("Vec::<T, A>::is_empty")
                                        and T.strip(d[2][0], sites=False, refs=True) == faces_v):
             est += tr              # no faces at all
@@ -176,6 +274,28 @@ def check_config(rep, prog):
                                         every = False
                         if over_tri and after and every:
                             ok = True
+            if not ok:
+                # the same thing written as a fold: max_i = tri.0.into_iter().fold(max_i, <component-wise max>)
+                for fb_, ft_ in po.calls(lambda c: facts.callee_matches(c, "Iterator::fold")):
+                    fargs = [T.strip(sl.operand(a_), sites=False, refs=True) for a_ in ft_["args"]]
+                    src = [q for q in T.walk(fargs[0]) if q[0] == "call" and "into_iter" in q[1]]
+                    over_tri = bool(src) and T.strip(src[-1][2][0], sites=False, refs=True) == ("field", tri, "Tri.0")
+                    carried = T.contains(fargs[1], lambda q: q[0] == "phi") or T.contains(fargs[1], lambda q: q[0] == "agg" and q[1].endswith("Indices::Indices"))
+                    fn = fargs[2]
+                    fbody = prog.lookup(fn[1].split(" => ")[-1]) if fn[0] == "fnptr" else (prog.bodies.get(fn[1][8:]) if fn[0] == "agg" and fn[1].startswith("closure:") else None)
+                    is_max = False
+                    if fbody is not None:
+                        off = 1 if fbody.kind == "Closure" else 0
+                        rt_ = T.strip(T.Slicer(fbody).local(0), sites=True, refs=True)
+                        for q in T.walk(rt_):
+                            if q[0] == "agg" and q[1].endswith("Indices::Indices") and q[2]:
+                                p0 = T.strip(q[2][0], sites=True, refs=True)
+                                if p0[0] == "call" and p0[1].split(" => ")[0].endswith("cmp::Ord::max"):
+                                    ops_ = {T.strip(x_, sites=True, refs=True) for x_ in p0[2]}
+                                    is_max = ops_ == {("field", ("param", 1 + off), "Indices.pos"), ("field", ("param", 2 + off), "Indices.pos")}
+                    dest_used = po.dominates(fb_, pb)
+                    if over_tri and carried and is_max and dest_used:
+                        ok = True
             rep.inst("C14.K-mesh", "faces.push(tri) at %s is preceded by `max_pos = max(max_pos, i.pos)` over all of tri.0: %s" % (po.where(pb, None), ok), config=cfg)
             if not ok:
                 rep.violate("C14.K-mesh", "K-mesh|running-max", po.where(pb, None),
@@ -212,7 +332,7 @@ def index_order_rule(rep, prog):
                     for r in T.walk(q[2][0]):
                         if r[0] == "call" and len(r) > 3 and r[3][1] in rank and r[3][0] == b.path:
                             sites.add(rank[r[3][1]])
-                if q[0] == "call" and "and_then" in q[1] and any(x[0] == "fnptr" and "io::parse_index" in x[1] for x in q[2]):
+                if q[0] == "call" and any(x[0] == "fnptr" and "io::parse_index" in x[1] for x in q[2]):      # and_then / map / map_or .. (parse_index)
                     for r in T.walk(q[2][0]):
                         if r[0] == "call" and len(r) > 3 and r[3][1] in rank and r[3][0] == b.path:
                             sites.add(rank[r[3][1]])
